@@ -26,6 +26,8 @@ package disk
 // max_size is assumed to be at most 2^61 bytes (2 EiB): with reservedSize == maxSize == 2^62 and an
 // item of 2^62 bytes the test `c.reservedSize+sizeDelta > c.maxSize` in Add wraps around.
 //@ pred BMAX() = 2305843009213693952
+// ASSUMED: no file, and no cache, is larger than 2^47 bytes (128 TiB)
+//@ pred FMAX() = 140737488355328
 
 // Structural part of the SizedLRU invariant: list, map and entries agree.
 //@ pred lruIndex(c) = c.ll != nil && c.cache != nil &&
@@ -159,7 +161,7 @@ package disk
 //@   serves C03 C04 C05 C07 C09 C17
 //@   requires lruInv(c)
 //@   requires[C07] lock: muHeld
-//@   requires sizes: 0 <= value.sizeOnDisk && value.sizeOnDisk <= B62() && 0 <= value.size && value.size <= B62()
+//@   requires sizes: 0 <= value.sizeOnDisk && value.sizeOnDisk <= B62() && 0 <= value.size
 //@   assume nologicaloverflow: c.uncompressedSize + value.size + 4096 <= B62()
 //@   modifies c.currentSize, c.uncompressedSize, c.ll.seq, mapof(c.cache), #list.Element.owner, #list.Element.Value, evq, evN, qobs, c.totalDiskSizePeak,
 //@            #lruItem.size, #lruItem.sizeOnDisk, #lruItem.legacy, #lruItem.random
